@@ -55,4 +55,19 @@ CHECKS = {
                       "Recursion depth (stack exhaustion) and error-position correctness are not decided.",
         "level_note": "Trusted: MIR of the nightly front end; may-panic API table; each reason-only discharge row.",
     },
+    "C16": {
+        "modules": ["rules_c16"],
+        "explanation": "Impl-provenance analysis: the key types (local types reaching ordered/hashed containers, sorts, min/max and comparison "
+                       "calls under the execution and parsing entry points, closed under field containment) are enumerated from resolved "
+                       "generic arguments; for each, the PartialEq/Eq/PartialOrd/Ord/Hash impls are read from the type-checked program "
+                       "(#[automatically_derived] or manual). Types without a float must be all-derived; a float-bearing type must build "
+                       "eq/partial_cmp/cmp/hash on one canonical total key, which is checked on the MIR of the four methods (callees, absence of "
+                       "IEEE comparison BinaryOps, shared key function, NaN/-0.0 canonicalisation). Plus: no ad-hoc comparators on value "
+                       "types, and the WHERE comparison converts INT to REAL before ordering.",
+        "trusted": ["rustc nightly MIR + is_automatically_derived", "std/chrono leaf types are lawful", "derive output is lawful over lawful fields"],
+        "technique": "static impl-provenance and sibling-agreement analysis of the comparison/hash trait impls on type-checked MIR",
+        "level_text": "Decides the structural necessary-and-sufficient condition for the order laws given lawful leaves: all five impls of every "
+                      "key type come from one definition. Does not execute comparisons.",
+        "level_note": "Trusted: lawfulness of std/chrono leaf impls and of #[derive] output; f64::total_cmp is a total order.",
+    },
 }
